@@ -128,8 +128,13 @@ func variant(t *rapid.T, raw []byte) ([]byte, string) {
 	case 1:
 		p = strings.Replace(p, "filepermessage=true,", "", 1)
 	}
-	if rapid.IntRange(0, 3).Draw(t, "special") == 0 {
+	switch rapid.IntRange(0, 5).Draw(t, "special") {
+	case 0:
 		p += ",specialname=Name,specialname=Reset"
+	case 1, 2:
+		// a special name that matches no field: the flag may be repeated and must accumulate, so the output
+		// (and whether it compiles) is the same as without it
+		p += ",specialname=NoSuchFieldInAnyExampleSchema"
 	}
 	req.Parameter = proto.String(p)
 	b, err := proto.MarshalOptions{Deterministic: true}.Marshal(req)
